@@ -17,7 +17,7 @@
     X(migsched) X(migxs) X(migrate) X(setcb)                                  \
     X(keyset) X(selfset) X(tset) X(keyget) X(selfget) X(tget)                 \
     X(xscreate) X(xsbasic) X(setrank) X(rankcheck) X(xsrevive) X(setmain)      \
-    X(ppush) X(ppushm) X(ppop) X(ppopm) X(premove) X(psize) X(uself) X(pmove)
+    X(ppush) X(ppushm) X(ppop) X(ppopm) X(premove) X(psize) X(uself) X(pmove) X(stackuse)
 
 enum {
 #define X(n) OP_##n,
@@ -43,6 +43,8 @@ static void notify_done(void);
 static void migr_callback(ABT_thread thread, void *cb_arg);
 static void op_addsched(actor *a, int p, int s);
 static void op_uself(actor *a);
+static void op_stackuse(actor *a, long permille);
+static void stack_release(actor *a);
 static void op_xscreate(actor *a, int xi, int rank, int exact, int basic);
 static void op_setrank(actor *a, int xi, int rank);
 static void op_rankcheck(actor *a, int check_num);
@@ -117,6 +119,7 @@ static void unit_body(void *arg, int fnid)
     check_start_stream(a);
     run_ops(a);
     hist(a, "end", ua->inc, 0, 0);
+    stack_release(a);
     a->end_step = now_step();
     a->running = 0;
     a->ends++;
@@ -186,6 +189,8 @@ static void op_free(actor *a, int ui)
         generr("free of unfreeable unit %d", ui);
     if (u->ends != u->incarnation)
         stat_add("join_before_end", 1);
+    /* from here on the descriptor may be handed out again (see check_new_handle) */
+    __atomic_store_n(&u->freeing, 1, __ATOMIC_SEQ_CST);
     int rc = u->utype == U_ULT ? ABT_thread_free(&u->h) : ABT_task_free((ABT_task *)&u->h);
     CHECK_RC(rc, "ABT_thread_free");
     check_joined(a, u, "free");
@@ -572,6 +577,9 @@ static void exec_op(actor *a, op_t *o)
             break;
         case OP_uself:
             op_uself(a);
+            break;
+        case OP_stackuse:
+            op_stackuse(a, o->a[0] < 0 ? 900 : o->a[0]);
             break;
         case OP_pmove:
             op_pmove(a, a0, a1, (int)o->a[2]);
@@ -996,6 +1004,10 @@ static void run_special_mode(void)
         env_probe("A", g_envA[0] ? g_envA : NULL);
         env_probe("B", g_envB[0] ? g_envB : NULL);
         env_probe("C", NULL);
+        return;
+    }
+    if (G.mode == 2) {
+        mp_run();
         return;
     }
     generr("mode %d not built", G.mode);
